@@ -345,6 +345,43 @@ def r2(chk, prog):
             chk.check(ok, 'R2', f.name, 'clear() empties the container [%s]' % tag, f.loc())
 
 
+def r2_key_value(chk, prog, rule='R2'):
+    """the key-value adapters (map, multimap and their unordered siblings): addValue( key, value) INSERTS the pair
+    built from both parameters (insert/emplace: content that was there before stays - an assignment through
+    operator[] would overwrite it, and would make the four siblings disagree), on every path; clear() empties;
+    contains() is true exactly for a stored key"""
+    kv = {cn: c for cn, c in prog.classes.items() if c['q'] == 'celma::prog_args::detail::KeyValueContainerAdapter'
+          and any(m['short'] == 'addValue' for m in c['methods'])}
+    chk.require(len(kv) >= 4, 'only %d KeyValueContainerAdapter specialisations instantiated' % len(kv))
+    for cn in sorted(kv):
+        tag = re.sub(r'<.*', '', cn.split('KeyValueContainerAdapter<', 1)[1])
+        meths = {f.short: f for f in prog.functions if f.cls == cn and f.body is not None}
+        f = meths.get('addValue')
+        chk.require(f is not None and len(f.params) == 2, 'addValue( key, value) of %s not found' % tag)
+        ins = [c for c in f.calls() if field_name(object_of(c)) == 'mDestCont' and
+               c.get('callee', '').split('::')[-1] in ('insert', 'emplace', 'try_emplace')]
+        other = [c for c in f.calls() if field_name(object_of(c)) == 'mDestCont' and c not in ins] + \
+                [c for c in f.calls() if c.get('k') == 'CXXOperatorCallExpr' and c.get('op') in ('[]', '=') and
+                 any(field_name(a) == 'mDestCont' for a in call_args(c))]
+        ok = len(ins) == 1 and not other and all(
+            any(mentions_var(a, p['name']) for a in call_args(ins[0])) for p in f.params) and \
+            not f.cfg.must_pass_through(lambda n: n in ins)
+        chk.check(ok, rule, f.name, 'addValue() inserts the pair ( key, value) and keeps the earlier content [%s]' % tag,
+                  f.loc(), 'other accesses of the destination: %s' % sorted({(c.get('callee') or '').split('::')[-1]
+                                                                             for c in other}) if other else '')
+        if 'clear' in meths:
+            g = meths['clear']
+            cl = [c for c in g.calls() if field_name(object_of(c)) == 'mDestCont' and c.get('callee', '').endswith('::clear')]
+            chk.check(bool(cl) and not g.cfg.must_pass_through(lambda n: n in cl), rule, g.name,
+                      'clear() empties the container [%s]' % tag, g.loc())
+        if 'contains' in meths:
+            pol = membership_polarity(prog, meths['contains'])
+            if pol is None:
+                raise AnalysisBroken('contains() of the %s adapter has a shape this rule does not know' % tag)
+            chk.check(pol, rule, meths['contains'].name, 'contains() is true exactly for a stored key [%s]' % tag,
+                      meths['contains'].loc(), 'the returned expression is the negation of the membership test')
+
+
 def r3_tuple_capacity(chk, prog):
     """a tuple destination refuses more elements than it holds: common::tuple_at_index( index, tuple, f) - the
     helper through which TypedArg< std::tuple<...>> stores element number `index` - is evaluated abstractly (Engine B)
@@ -502,6 +539,7 @@ def run(chk):
     chk.rule('R4', 'free values are routed to the last multi-value argument only', 5)
     r1(chk, prog)
     r2(chk, prog)
+    r2_key_value(chk, prog)
     r3(chk, prog)
     r4(chk, prog)
     chk.rule('R5', 'a pending "clear before assign" is a one-shot request', 4)
